@@ -32,15 +32,16 @@ class C01(TreeCheck):
     ]
 
     def n_bases(self, tier):
-        return 14 if tier == "quick" else 120
+        return 16 if tier == "quick" else 120
 
     def per_base(self, tier):
         return (22, 14, 2) if tier == "quick" else (45, 30, 4)
 
     def bases(self, tier, rng):
         out = []
+        forced = ["fork", "spawn", "forkserver", "loky_init_main"]
         for i in range(self.n_bases(tier)):
-            prog, meta = programs.g_mix(rng)
+            prog, meta = programs.g_mix(rng, force_context=forced[i % 4] if (i < 4 or (tier != "quick" and i % 6 == 0)) else None)
             out.append({"program": prog, "config": {}, "meta": meta})
         return out
 
